@@ -270,43 +270,65 @@ func verifC42Seq(hc *halfConn) uint64 {
 	return v
 }
 
+// verifC42Status maps an error of Conn.Read / Conn.Write to a small code: 0 nil, 1 io.EOF, 2
+// io.ErrUnexpectedEOF, 100+a local alert a, 300+a remote alert a, 9 anything else (for plain fmt.Errorf
+// errors - record version mismatch, oversized record - the alert the server sent is read back: 100+a).
+func verifC42Status(id, vers uint16, err error, out []byte) int {
+	if err == nil {
+		return 0
+	}
+	status := 9
+	switch e := err.(type) {
+	case *net.OpError:
+		if a, ok := e.Err.(alert); ok {
+			if e.Op == "local error" {
+				status = 100 + int(a)
+			} else if e.Op == "remote error" {
+				status = 300 + int(a)
+			}
+		}
+	default:
+		if err == io.EOF {
+			status = 1
+		} else if err == io.ErrUnexpectedEOF {
+			status = 2
+		}
+	}
+	if status == 9 {
+		if a := verifC42SentAlert(id, vers, out); a >= 0 {
+			status = 100 + a
+		}
+	}
+	return status
+}
+
 // VerifC42Receive feeds stream to a server Conn (netChunk bytes per transport read) and calls the real
-// Conn.Read with an rdBuf-byte buffer until it returns an error.  status: 1 io.EOF, 2
-// io.ErrUnexpectedEOF, 100+a local alert a, 300+a remote alert a, 9 anything else.
-func VerifC42Receive(id, vers uint16, stream []byte, netChunk, rdBuf int) (delivered []byte, status int, seq uint64, wrote int) {
+// Conn.Read with an rdBuf-byte buffer until it returns an error (delivered, status).  Then it keeps using
+// the connection: one further Read per element of more (that buffer size; result: byte count, status and
+// the bytes, appended to moreBytes) and finally a one-byte Conn.Write (wstatus).
+func VerifC42Receive(id, vers uint16, stream []byte, netChunk, rdBuf int, more []int) (delivered []byte, status int, seq uint64, after [][2]int, moreBytes []byte, wstatus int) {
 	fc := &verifC42Conn{in: append([]byte(nil), stream...), chunk: netChunk}
 	c := verifC42NewConn(id, vers, false, fc)
 	buf := make([]byte, rdBuf)
+	status = 8
 	for iter := 0; iter < 100000; iter++ {
 		n, err := c.Read(buf)
 		delivered = append(delivered, buf[:n]...)
 		if err != nil {
-			status = 9
-			switch e := err.(type) {
-			case *net.OpError:
-				if a, ok := e.Err.(alert); ok {
-					if e.Op == "local error" {
-						status = 100 + int(a)
-					} else if e.Op == "remote error" {
-						status = 300 + int(a)
-					}
-				}
-			default:
-				if err == io.EOF {
-					status = 1
-				} else if err == io.ErrUnexpectedEOF {
-					status = 2
-				}
-			}
-			if status == 9 {
-				// plain fmt.Errorf errors (record version mismatch, oversized record): identify them by
-				// the alert the server sent, read back with the peer's keys
-				if a := verifC42SentAlert(id, vers, fc.out); a >= 0 {
-					status = 100 + a
-				}
-			}
-			return delivered, status, verifC42Seq(&c.in), len(fc.out)
+			status = verifC42Status(id, vers, err, fc.out)
+			break
 		}
 	}
-	return delivered, 8, verifC42Seq(&c.in), len(fc.out)
+	for _, sz := range more {
+		if sz < 1 {
+			sz = 1
+		}
+		b := make([]byte, sz)
+		n, err := c.Read(b)
+		moreBytes = append(moreBytes, b[:n]...)
+		after = append(after, [2]int{n, verifC42Status(id, vers, err, fc.out)})
+	}
+	_, werr := c.Write([]byte{0x77})
+	wstatus = verifC42Status(id, vers, werr, fc.out)
+	return delivered, status, verifC42Seq(&c.in), after, moreBytes, wstatus
 }
